@@ -418,3 +418,38 @@ Theorem C13_stable_sort_le_sorted_id : forall (A : Type) (le : A -> A -> bool) (
   sorted_le le l = true -> stable_sort_le le l = l.
 Proof. intros A le l. exact (stable_sort_le_sorted_id le l). Qed.
 Print Assumptions C13_stable_sort_le_sorted_id.
+
+(* XLS: the table of a sheet is the same whatever sheets precede it in the workbook (the second sheet
+   with the same header texts as the first comes back like the first) *)
+Theorem C13_xls_sheets_independent : forall before g after,
+  nth (length before) (xls_workbook_tables (before ++ g :: after)) [] = xls_sheet_table g.
+Proof. exact xls_sheets_independent. Qed.
+Print Assumptions C13_xls_sheets_independent.
+
+(* ---------------------------------------------------------------- DOCX through content controls / customXml
+   (repaired code a634949: tables at body level, rows and cells are found through w:sdt / w:sdtContent /
+   w:customXml wrappers, any nesting, document order) *)
+Theorem C13_docx_table_wrapped_eq : forall segs : list (list str * list xml),
+  forallb (fun sg => okc W_TR (fst sg) && forallb (tag_is W_TR) (snd sg)) segs = true ->
+  docx_table (E W_TBL (flat_map (fun sg => wrap_chain (fst sg) (snd sg)) segs)) = docx_table (E W_TBL (flat_map snd segs)).
+Proof. exact docx_table_wrapped_eq. Qed.
+Print Assumptions C13_docx_table_wrapped_eq.
+
+Theorem C13_docx_row_cells_wrapped : forall t a x l (segs : list (list str * list xml)),
+  forallb (fun sg => okc W_TC (fst sg) && forallb (tag_is W_TC) (snd sg)) segs = true ->
+  docx_through W_TC (Elem t a x (flat_map (fun sg => wrap_chain (fst sg) (snd sg)) segs) l) = flat_map snd segs.
+Proof. exact docx_row_cells_wrapped. Qed.
+Print Assumptions C13_docx_row_cells_wrapped.
+
+(* a whole document inside a body-level wrapper chain: every table is returned *)
+Theorem C13_docx_tables_body_wrapped : forall (chain : list str) (d : doc),
+  chain <> [] -> okc W_TBL chain = true ->
+  docx_tables (E W_BODY (wrap_chain chain (map docx_r_block d))) = spec_preorder d.
+Proof. exact docx_tables_body_wrapped. Qed.
+Print Assumptions C13_docx_tables_body_wrapped.
+
+(* the walker before the fix lost them (closed witness, replayed by the check on the real code) *)
+Theorem C13_docx_tables_direct_lost_wrapped :
+  exists body, docx_tables_direct body = [] /\ docx_tables body = [[[s "in sdt"]]].
+Proof. exact docx_tables_direct_lost_wrapped. Qed.
+Print Assumptions C13_docx_tables_direct_lost_wrapped.
